@@ -251,11 +251,17 @@ def r5(ctx):
         if not ok:
             ctx.violation("flat/%s" % short(name, 1), ctx.where(name), "%s must separate values by %r and rows by %r; found %r" % (short(name, 1), rs, ls, fs))
     fe = ctx.anchor_hir(FMT["flat"] + "::format_element")
-    ms = [m for m in find_matches(fe, min_arms=2) if render(peel(m["scrut"])) == "is_last"]
+    # is_last => the value alone; otherwise value followed by the value separator
+    last_param = [p["id"] for p in ctx.prog.fns[FMT["flat"] + "::format_element"].get("params", []) if p.get("name") == "is_last"]
+    ifs = find_ifs(fe, lambda c: c["k"] == "Path" and c.get("rk") == "Local" and c["res"] in last_param)
     ok = False
-    if ms:
-        t = table_of(ms[0], lambda b: [tt for tt, _ in fmt_templates(b)] or render(peel_result(b)))
-        ok = t.get("true") == "record.to_string()" and t.get("false") == ["{}{}"]
+    if len(ifs) == 1 and ifs[0][1] is not None and ifs[0][2] is not None:
+        def cell(b):
+            ts = [tt for tt, _ in fmt_templates(b)]
+            uses = [render(x) for x in walk_exprs(b) if x["k"] == "Field" and render(x["e"]) == "self"]
+            return (ts, sorted(set(uses)), "record" in render(b))
+        pos, neg = cell(ifs[0][1]), cell(ifs[0][2])
+        ok = pos[2] and neg[2] and not pos[1] and pos[0] in ([], ["{}"]) and neg[1] == ["self.record_separator"] and neg[0] in (["{}{}"], [])
     ctx.obligation(ok)
     if not ok:
         ctx.violation("flat/format_element", ctx.where(FMT["flat"] + "::format_element"), "a flat cell is the value, followed by the value separator unless it is the last cell")
